@@ -128,6 +128,11 @@ def is_size_quantity(atoms):
         a = strip(a)
         if a.k == "call" and a.a[0].name in ("size", "len", "length", "length_with_payload"):
             continue
+        # a sum of lengths over the pairs of a record / builder
+        if a.k == "call" and a.a[0].name == "sum" and (a.a[0].trait or "").endswith("Iterator") and any(x.k == "field" and x.a[1] == "content" for x in a.walk()):
+            continue
+        if a.k == "field" and a.a[1] == "payload_length":
+            continue
         if a.k == "field" and a.a[1] == "0" and a.a[0].k == "binop" and a.a[0].a[0] == "SubWithOverflow":
             continue
         if a.k == "binop" and a.a[0] in ("Sub", "SubWithOverflow"):
@@ -373,6 +378,57 @@ def decoder_guard(ctx, report):
                          "decode's size gate does not admit exactly [0,300] on the way to Ok (guards seen: %s)" % seen, fn=f.path, sp=sp, config=cfg)
 
 
+def mirrored_payload(ctx, an, atoms, is_signature):
+    """atoms = { len(signature), Header::length(H), <atoms of L> } with H = Header{list: true, payload_length: L} and L the
+    length mirror of Builder::rlp_content's emissions: returns True/False, or None if the atoms do not have that shape"""
+    from rules import emit
+    from rules.typestate import trace_local
+    import shapes
+    rest = []
+    sig = hdr = None
+    for a in atoms:
+        a = strip(a)
+        if a.k == "call" and a.a[0].name == "len" and a.a[1] and is_signature(a.a[1][0]):
+            sig = a
+        elif a.k == "call" and a.a[0].name == "length" and "Header" in a.a[0].fn and a.a[1]:
+            hdr = strip(a.a[1][0])
+        else:
+            rest.append(a)
+    if sig is None or hdr is None or not (hdr.k == "agg" and hdr.a[0].endswith("Header::Header")):
+        return None
+    lst = strip(hdr.a[1].get("list"))
+    if not (lst.k == "const" and lst.a[0] == 1):
+        return False
+    latoms, lc = guards.linear(hdr.a[1].get("payload_length"), const_int, strip)
+    if lc != 0 or sorted(repr(strip(x)) for x in latoms) != sorted(repr(x) for x in rest):
+        return False
+    # the builder payload's own emission list
+    rf = ctx.facts.fn("builder::Builder::<K>::rlp_content")
+    if rf is None:
+        return False
+    fg = ctx.flat(rf)
+    ran = ctx.an(fg)
+    rets = [r for r in ran.defs().get(0, []) if r[0] in ran.cfg.succ]
+    if len(rets) != 1 or getattr(rets[0][2], "rv", None) is None:
+        return False
+    out = trace_local(ran, rets[0][2].rv.ops[0])
+    if out is None:
+        return False
+    em = emit.sink_emissions(ctx, fg, out, False)
+    body = [e for e in em if e.kind != "header"]
+    # either framed through a scratch stream (header + raw stream) or written directly
+    raws = [e for e in body if e.kind == "raw" and e.loop is None]
+    if len(body) == 1 and raws:
+        tgt = ran.operand_target(raws[0].term.args[1])
+        if tgt is None:
+            return False
+        body = emit.sink_emissions(ctx, fg, shapes.root_local(ran, tgt[0]), False)
+    pre = [e for e in body if e.loop is None]
+    inl = [e for e in body if e.loop is not None]
+    probs = emit.length_mirror(ctx, hdr.a[1].get("payload_length"), pre, inl, lambda e: e.k == "param" and e.a[0] == 1)
+    return not probs
+
+
 def builder_slack(ctx, report):
     """build() returns Ok only behind `len(P) + len(S) + c <= 300`, 4 <= c <= 8, where P is a self.rlp_content()
     taken after the last content write (the payload that is signed, or an identical later one) and S the signature
@@ -437,6 +493,16 @@ def builder_slack(ctx, report):
                 continue
             q, sset = r
             atoms, cst = guards.linear(q, const_int, strip)
+            if len(atoms) > 2:
+                # the payload size computed instead of measured: Header{list, L}.length() + L with L the length mirror of
+                # what Builder::rlp_content emits (seq, then key/value of every pair)
+                mp = mirrored_payload(ctx, an, atoms, is_signature)
+                if mp is not None:
+                    cont = guards.shift(sset, cst)
+                    detail.append((["payload(mirror)", "signature"], cst, guards.fmt(cont)))
+                    if mp and 4 <= cst <= 8 and cont == [(0, MAX_ENR_SIZE - cst)]:
+                        good = True
+                continue
             if len(atoms) != 2:
                 continue
             kinds = []
